@@ -35,7 +35,11 @@ func runMix(id string, parts []string) string {
 	per := hx.MustAtoi(f["per"])
 	nnames := hx.MustAtoi(f["names"])
 	seed := int64(hx.MustAtoi(f["seed"]))
-	env.EnableKeyed(300, time.Duration(hx.MustAtoi(f["delay"]))*time.Millisecond)
+	ttl := 300
+	if v := f["ttl"]; v != "" {
+		ttl = hx.MustAtoi(v)
+	}
+	env.EnableKeyed(uint32(ttl), time.Duration(hx.MustAtoi(f["delay"]))*time.Millisecond)
 	rng := rand.New(rand.NewSource(seed))
 	labels := []string{"example", "com", "net", "www", "a", "b", "mail", "cdn", "x-1"}
 	type qd struct {
@@ -58,6 +62,11 @@ func runMix(id string, parts []string) string {
 		raw = append(raw, fmt.Sprint(i%97)...)
 		pool[i] = qd{raw, []uint16{1, 28, 16, 15}[rng.Intn(4)], []uint16{1, 1, 3}[rng.Intn(3)]}
 	}
+	allowed := make(map[string]bool, len(pool))
+	for _, q := range pool {
+		allowed[hx.QuestionKey(hx.BuildQuery(0, q.name, q.typ, q.cls, true))] = true
+	}
+	env.KeyedAllowed = allowed
 	listeners := []string{"udp", "udp", "tcp", "gnet", "http-post", "fasthttp-get"}
 	if ls := f["ls"]; ls != "" {
 		listeners = strings.Split(ls, "+")
@@ -102,7 +111,11 @@ func runMix(id string, parts []string) string {
 					}
 				}
 			}
+			pace := time.Duration(hx.MustAtoi(orDefault(f["pace"], "0"))) * time.Millisecond
 			for k := 0; k < per; k++ {
+				if pace > 0 {
+					time.Sleep(pace)
+				}
 				q := pool[crng.Intn(len(pool))]
 				l := listeners[crng.Intn(len(listeners))]
 				idn := uint16(crng.Intn(65536))
@@ -136,8 +149,13 @@ func runMix(id string, parts []string) string {
 		}()
 	}
 	wg.Wait()
-	return fmt.Sprintf("total=%d ok=%d wrong=%d noresp=%d servfail=%d upstream=%d first=%s", total.Load(), okc.Load(), wrong.Load(),
-		noresp.Load(), sfail.Load(), env.KeyedCount.Load(), first)
+	time.Sleep(50 * time.Millisecond) // let background refreshes reach the upstream
+	fsample := "-"
+	if v := env.KeyedForeignSample.Load(); v != nil {
+		fsample = v.(string)
+	}
+	return fmt.Sprintf("total=%d ok=%d wrong=%d noresp=%d servfail=%d upstream=%d upforeign=%d first=%s upsample=%s", total.Load(), okc.Load(),
+		wrong.Load(), noresp.Load(), sfail.Load(), env.KeyedCount.Load(), env.KeyedForeign.Load(), first, fsample)
 }
 
 // checkKeyed returns "" when resp is the keyed answer for the question asked in wire.
@@ -195,4 +213,11 @@ func checkKeyed(wire, resp []byte, typ, cls uint16) string {
 		}
 	}
 	return ""
+}
+
+func orDefault(s, d string) string {
+	if s == "" {
+		return d
+	}
+	return s
 }
